@@ -31,7 +31,7 @@ Definition tab_c18 : list (string * (list Qc -> val)) := [
   ("m4_cmp", cmp_case (@rd_m4 Qc) (@m4_cmp Qc));
   ("quat_cmp", cmp_case rq (@quat_cmp Qc));
   ("rad_cmp", cmp_case (@rd_s Qc) (@ang_cmp Qc)); ("deg_cmp", cmp_case (@rd_s Qc) (@ang_cmp Qc));
-  ("euler_cmp", cmp_case rd_euler (@euler_cmp Qc));
+  ("euler_cmp", cmp_case (@rd_euler Qc) (@euler_cmp Qc));
   ("basis2_cmp", cmp_case (@rd_m2 Qc) (@basis2_cmp Qc)); ("basis3_cmp", cmp_case (@rd_m3 Qc) (@basis3_cmp Qc));
   ("dq_cmp", cmp_case (rd_dec rq (@rd_v3 Qc)) (fun sc => dec_cmp sc (quat_cmp sc) (v3_cmp sc)));
   ("db3_cmp", cmp_case (rd_dec (@rd_m3 Qc) (@rd_v3 Qc)) (fun sc => dec_cmp sc (m3_cmp sc) (v3_cmp sc)));
